@@ -227,8 +227,8 @@ def c09(sc, tier, seed):
 
 
 def c10(sc, tier, seed):
-    return transition_check(sc, tier, seed, 'C10', ['MC_watch'], quick_n=10000,
-                            rule='TLC enumerates every program [step] WATCH a [step] MULTI PING [step by the other connection] EXEC with exactly one free position filled by: every data command of the emulator aimed at the watched key (all types; in-place and replacing writes, reads, failing writes), issued by the watching or by the other connection, FLUSHDB/FLUSHALL, or the deadline passing (300 ms of real time) - from 17 initial states (watched key missing / string / list / hash / set / with TTL); WatchIff (EXEC replies nil iff the watched key was modified since WATCH) is checked by TLC on the ideal reading; every program is replayed on two real connections.')
+    return transition_check(sc, tier, seed, 'C10', ['MC_watch', 'MC_watch2'], quick_n=10000,
+                            rule='TLC enumerates every program [step] WATCH a [step] MULTI PING [step by the other connection] EXEC with exactly one free position filled by: every data command of the emulator aimed at the watched key (all types; in-place and replacing writes, reads, failing writes), issued by the watching or by the other connection, FLUSHDB/FLUSHALL, or the deadline passing (300 ms of real time) - from 17 initial states (watched key missing / string / list / hash / set / with TTL); WatchIff (EXEC replies nil iff the watched key was modified since WATCH) is checked by TLC on the ideal reading; every program is replayed on two real connections. MC_watch2: WATCH, two steps of the other connection - round trips that restore the key (RENAME away and back, DEL + SET, overwrite + restore, push + pop, COPY over itself, HSET / SADD and undo) and BITFIELD with one applied and one refused write - then MULTI PING EXEC, from a string / lists / hash / set.')
 
 
 def c14(sc, tier, seed):
@@ -257,6 +257,8 @@ def lin_check(sc, tier, seed, prop, walk_module, n_hist, depth, rule, assumption
         if 'hammer' in op:
             for rnd in range(ham_rounds):
                 for spec in op['hammer']:
+                    if spec['name'] in ('multi-exec-incr', 'multi-exec-clientinfo'):
+                        continue            # (the transaction hammers belong to C09)
                     progs = spec['progs']
                     if isinstance(progs, list):
                         progs = {str(i + 1): p for i, p in enumerate(progs)}
